@@ -34,6 +34,16 @@ func verifC19_write() {
 		// (no data message: whether the library also gives up the connection on such a failure is its own choice)
 		websocket.VerifAssert(ok && len(payloads) == 0, "C19.write.failed-write-sends-no-message")
 	}
+	if websocket.VerifChoose("failedWriteElsewhere", 2) == 1 {
+		// a write on another connection has failed before (that connection was closed); whatever the library pools
+		// between writes must not carry that failure over to this connection
+		websocket.VerifGhostPoolMode(0)
+		d, _ := websocket.VerifScriptedConn(client, nil, 0)
+		d.CloseNow()
+		derr := Write(context.Background(), d, json.RawMessage(`1`))
+		websocket.VerifAssert(derr != nil, "C19.write.closed-connection-is-error")
+		websocket.VerifReach("C19.write.after-a-failed-write-elsewhere")
+	}
 	doc := vDocs[websocket.VerifChoose("doc", len(vDocs))]
 	v := json.RawMessage(doc)
 	err := Write(context.Background(), c, v)
